@@ -102,8 +102,8 @@ let handle (cmd : string) (args : t list) : t option =
     Some (final_sexp (delete_nodes_mg (List.map (fun o -> n_of_int (int_atom o)) mg) (coords_of_sexp cs) (node_of_sexp d)))
   | "delete-spec", [d; cs] ->
     let d = node_of_sexp d in
-    let ps = List.map (fun p -> (p.pc_parent, p.pc_ref)) (del_order (coords_of_sexp cs)) in
-    Some (L [bs (wf_docb d); bs (no_dup_no_disorder d ps); bs (doc_ordered d (List.rev ps)); canon_doc (delete_spec d ps)])
+    let ps = List.map (fun p -> (p.pc_parent, p.pc_ref)) (leaf_coords (coords_of_sexp cs)) in
+    Some (L [bs (wf_docb d); bs (del_all_located d ps); canon_doc (delete_spec d ps)])
   | "set", [d; cs; v; f; vo; lt; ft] ->
     let d = node_of_sexp d in
     Some (sfinal_sexp (set_value (lit_of_table (lit_table_of_sexp lt)) (fl_of_table ft)
